@@ -17,6 +17,9 @@ def run_all(ctx, prop):
         asm_kern.run_family(ctx, prop)
     except ImportError:
         pass
+    if prop in ('C01', 'C07', 'C13'):
+        from props import asm_cbcsc
+        asm_cbcsc.run_family(ctx, prop)     # x16 VAES CBC-encrypt managers (scenario form)
     if prop in ('C04', 'C07', 'C13'):
         from props import asm_hmac, asm_cmac
         asm_hmac.run_family(ctx, prop)
